@@ -34,7 +34,9 @@ RULE = ("registry case: every (type, version) entry of both dispatch tables and 
         "pinned versions can represent (no key joins below Data v3, element selections not bound to a dataset uuid "
         "below v4, no metadata below v5, no JoinLink below DataCollection v4). One evaluation = one session compared "
         "original vs loaded-from-the-old-format; non-trivial when it holds a subset group, link, join or derived "
-        "column; distinct = distinct (dv, cv, structural descriptor).")
+        "column; distinct = distinct (dv, cv, structural descriptor). Every loaded collection whose comparison was "
+        "clean is then used (a dataset appended and removed again) and its behaviour compared with the original's "
+        "(liveness_after_load; DataCollection versions >= 2).")
 ASSUMPTIONS = [
     "records 'in version v's format' are produced by the saver registered for version v applied to today's objects "
     "(there is no archive of historical files); everything that is not Data / DataCollection is written by its newest saver",
@@ -199,6 +201,19 @@ def run_pinned(ctx, ses, dv, cv, skip, pins=None):
                 sig = {"what": "next_group", "how": k, "generation": 1}
                 sig.update(version_keys(dv, cv))
                 ctx.violation(sig, {"desc": desc, "before": n0, "after": n1})
+    if not diffs and "groups" not in (skip or ()):
+        # (DataCollection protocol 1 never stored groups: nothing to keep alive there)
+        # the loaded collection still works as one: same behaviour as the original when a dataset is added and removed
+        # (a group that a loader forgot to subscribe to the collection's hub looks identical until then)
+        l0, l1 = L.observe_liveness(dc), L.observe_liveness(dc1)
+        ctx.count("liveness_compared")
+        if desc["groups"]:
+            ctx.count("liveness_compared_with_groups:" + tag)
+        for k in sorted(set(l0) | set(l1)):
+            if l0.get(k) != l1.get(k):
+                sig = {"what": "liveness_after_load", "how": k, "generation": 1}
+                sig.update(version_keys(dv, cv))
+                ctx.violation(sig, {"desc": desc, "before": l0, "after": l1})
     ctx.count("observations_compared", P02.count_observations(obs0))
     ctx.count("subset_masks_nonempty", sum(1 for d in obs0["data"] for s in d["subsets"]
                                            if s["mask"][0] == "value" and s["mask"][1].any()))
@@ -692,6 +707,9 @@ def floors(counters, tier):
         for what in ("derived", "groups", "links"):
             if counters.get("sessions_compared_with_%s:%s" % (what, tag), 0) < 2:
                 out.append("version pair %s: fewer than 2 compared sessions with %s" % (tag, what))
+        if cv >= 2 and counters.get("liveness_compared_with_groups:" + tag, 0) < 2:
+            out.append("version pair %s: fewer than 2 loaded collections with groups probed for liveness (append / remove "
+                       "a dataset after loading)" % tag)
         if counters.get("sessions_compared_with_coords_internal_and_external_links:" + tag, 0) < 1:
             out.append("version pair %s: no compared session with world coordinates, an internal function link and an "
                        "external link together" % tag)
